@@ -81,9 +81,33 @@ FAMILIES = {
                  "gds21/src/read.rs GdsReader::read_record_header (length < 4 / odd, record type by number and valid(), data type by number), read_record_content (all 49 arms over "
                  "(record type, data type, length): the typed read, the length, which vector elements go to which field of the GdsRecord variant), read_record; data.rs GdsRecordType::valid "
                  "= read_header, read_content, read_record of Gds/GdsRead.v, rtype_valid of Gds/GdsRecord.v (monadic self: the unread bytes are the state; byte-level IO external; error variants apart)"),
+    "gds_parse": ("Gds/KernelsTieGdsParse_proofs.v", "Gds.KernelsTieGdsParse_proofs", "Properties/KernelsGdsCodec.v",
+                  "gds21/src/read.rs GdsParser::parse_property, parse_strans (flag bits; the loop over MAG / ANGLE on fuel), data.rs GdsPoint::parse = parse_property, parse_strans / strans_loop, "
+                  "parse_point of Gds/GdsRead.v; `next` (defined through the generated read_record) keeps the parser state the model's (monadic self: look-ahead record + unread bytes)"),
+    "gds_parse_e1": ("Gds/KernelsTieGdsParseE1_proofs.v", "Gds.KernelsTieGdsParseE1_proofs", "Properties/KernelsGdsCodec.v",
+                     "gds21/src/read.rs GdsParser::parse_boundary, parse_path, parse_node, parse_box: the whole functions (`loop { b = match self.next()? {..} }` on fuel with `break`, every arm, the "
+                     "derive_builder setters synthesised from #[builder(..)], properties + build) = parse_elem of Gds/GdsRead.v at KBoundary / KPath / KNode / KBox, fuel for fuel"),
+    "gds_parse_e2": ("Gds/KernelsTieGdsParseE2_proofs.v", "Gds.KernelsTieGdsParseE2_proofs", "Properties/KernelsGdsCodec.v",
+                     "gds21/src/read.rs GdsParser::parse_struct_ref, parse_array_ref (COLROW, the three-point XY), parse_text_elem (with parse_strans on the remaining fuel) = parse_elem at KSref / KAref / KText"),
+    "gds_parse_lib": ("Gds/KernelsTieGdsParseL_proofs.v", "Gds.KernelsTieGdsParseL_proofs", "Properties/KernelsGdsCodec.v",
+                      "gds21/src/read.rs GdsParser::parse_datetimes, parse_struct (element loop on fuel), parse_lib (header, BGNLIB, the loop over LIBNAME / UNITS / BGNSTR, build) = dates_of, struct_loop, "
+                      "parse_struct, lib_loop, parse_lib of Gds/GdsRead.v; composed with the generated read_record = read_lib_fuel (GdsLibrary::from_bytes)"),
+    "lef_write": ("Lef/KernelsTieLefWrite_proofs.v", "Lef.KernelsTieLefWrite_proofs", "Properties/KernelsLef.v",
+                  "lef21/src/write.rs LefWriter::format_mask, format_geom, write_geom, write_layer_geom, write_property, write_symmetries, write_macro_class, write_via_shape, write_density, "
+                  "write_units, write_site, write_via_layer_geom, write_via, write_port, write_pin (format templates read piece by piece: literal text, `{expr}` holes under Display; "
+                  "indentation through `self.indent += 1`; one `write_line` per line) = the lines of the functions of the same names of Lef/LefWrite.v "
+                  "(model variant flags: the code as it is now)"),
+    "lef_write_lib": ("Lef/KernelsTieLefWriteL_proofs.v", "Lef.KernelsTieLefWriteL_proofs", "Properties/KernelsLef.v",
+                  "lef21/src/write.rs LefWriter::write_macro (version gate, loops over pins / obstructions / properties, optional blocks), format_numeric_prop_def and write_lib (the whole file from "
+                  "a new writer: VERSION, the two version-gated statements, optional statements, PROPERTYDEFINITIONS, vias, sites, macros, extensions, END LIBRARY, flush) = write_macro, "
+                  "format_numeric_prop_def, write_lib_lines of Lef/LefWrite.v, lines and failure alike (error value apart)"),
+    "lef_parse": ("Lef/KernelsTieLefRead_proofs.v", "Lef.KernelsTieLefRead_proofs", "Properties/KernelsLef.v",
+                  "lef21/src/read.rs LefParser::advance, matches, expect, peek_key, get_key, expect_key, parse_ident, parse_number, parse_point and the whole of parse_density (two nested loops "
+                  "with break, each on the fuel the state gives; derive_builder of LefDensityGeometries; context stack) = the functions of the same names of Lef/LefParse.v "
+                  "(monadic self: the model's parser state; lexer, txt, LefKey::parse, rust_decimal external; error value apart)"),
 }
 # the file generated for each family (evidence text)
-GENERATED = {"gds_write": "KernelsGdsWriteGen.v", "gds_read": "KernelsGdsReadGen.v", "tetris_period": "KernelsTetrisConvPGen.v", "tetris_proto": "KernelsTetrisProtoGen.v", "raw_gdsi": "KernelsRawGdsImportGen.v", "tetris_conv": "KernelsTetrisConvXGen.v, KernelsTetrisConvIGen.v", "raw_gdsx": "KernelsRawGdsExportGen.v", "order_generic": "KernelsOrderGen.v", "order_raw": "KernelsRawOrderGen.v", "order_tetris": "KernelsTetrisOrderGen.v, KernelsTetrisProtoOrderGen.v (and KernelsOrderGen.v)", "tetris_stack": "KernelsTetrisGen.v", "tetris_tracks": "KernelsTetrisGen.v", "tetris_place": "KernelsTetrisGen.v", "raw_lef": "KernelsRaw2Gen.v", "raw_proto": "KernelsRaw2Gen.v", "raw_gds": "KernelsRaw2Gen.v"}
+GENERATED = {"lef_parse": "KernelsLefReadGen.v", "gds_write": "KernelsGdsWriteGen.v", "gds_read": "KernelsGdsReadGen.v", "gds_parse": "KernelsGdsReadGen.v", "gds_parse_e1": "KernelsGdsReadGen.v", "gds_parse_e2": "KernelsGdsReadGen.v", "gds_parse_lib": "KernelsGdsReadGen.v", "lef_write": "KernelsLefWriteGen.v", "lef_write_lib": "KernelsLefWriteGen.v", "tetris_period": "KernelsTetrisConvPGen.v", "tetris_proto": "KernelsTetrisProtoGen.v", "raw_gdsi": "KernelsRawGdsImportGen.v", "tetris_conv": "KernelsTetrisConvXGen.v, KernelsTetrisConvIGen.v", "raw_gdsx": "KernelsRawGdsExportGen.v", "order_generic": "KernelsOrderGen.v", "order_raw": "KernelsRawOrderGen.v", "order_tetris": "KernelsTetrisOrderGen.v, KernelsTetrisProtoOrderGen.v (and KernelsOrderGen.v)", "tetris_stack": "KernelsTetrisGen.v", "tetris_tracks": "KernelsTetrisGen.v", "tetris_place": "KernelsTetrisGen.v", "raw_lef": "KernelsRaw2Gen.v", "raw_proto": "KernelsRaw2Gen.v", "raw_gds": "KernelsRaw2Gen.v"}
 TRANSLATOR = os.path.join(VERIF, "tools", "translate_rust_kernels.py")
 
 def _failing_lemma(out, coqdir):
@@ -133,7 +157,8 @@ def kernel_tie_leg(chk, family):
     nq = count_qed([os.path.join(COQ, tie_file)])
     if not ok:
         f, line, lemma = _failing_lemma(mk, COQ)
-        if f == tie_file and lemma:
+        # (a family whose proof file builds on another family's: the failing lemma of that file names the obligation just the same)
+        if lemma and (f == tie_file or f in [v[0] for v in FAMILIES.values()]):
             ob = "K" + lemma if lemma.startswith("tie_") else lemma
             try:    # a helper lemma `tie_<fn>_round` / `_loop` belongs to the published theorem `Ktie_<fn>`
                 pub = [n for n in theorem_names(os.path.join(COQ, prop_file)) if ob.startswith(n)]
